@@ -35,7 +35,7 @@ REAL = common.REAL_ALL
 STUBS = common.STUBS_ALL
 PROBES = ['period_unit_omitted', 'sampling_period_set_before_unit', 'unit_on_one_end_only', 'mixed_units_in_one_interval', 'default_unit_not_s', 'period_unit_differs_from_default_unit',
           'pastified', 'dense_fleet', 'non_multiple_bound', 'non_multiple_rejected_at_parse_or_pastify', 'non_multiple_rejected_at_first_evaluation',
-          'same_numerals_different_unit']
+          'same_numerals_different_unit', 'reconfigured_object', 'reconfigured_to_non_multiple']
 
 TICKS = [
     [(1, 's'), (1000, 'ms'), (1000000, 'us'), (1000000000, 'ns')],
@@ -86,8 +86,88 @@ def gen_same_numerals(rng):
             'data': world.gen_trace(rng, vars_, n), 'same_numerals': True}
 
 
+CONFIGS = [{}, {'unit': 'ms'}, {'unit': 'ms', 'sampling': [1, 'ms', 0.1]}, {'sampling': [10, 'ms', 0.1], 'unit': 'ms'},
+           {'sampling': [20, 'ms', 0.1], 'unit': 'ms'}, {'sampling': [2, 's', 0.1]}, {'sampling': [500, 'ms', 0.1]},
+           {'sampling': [1, 'ms', 0.1]}, {'sampling': [1, 'ms', 0.1], 'unit': 'us'}, {'sampling': [0.5, 's', 0.1]},
+           {'sampling': [0.25, 's', 0.1], 'unit': 'ms'}, {'sampling': [1000, 'us', 0.1], 'unit': 'ms'}]
+
+
+def gen_reconfig(rng):
+    """an offline object that was configured differently (and used) before: after re-configuration it must behave like a
+    fresh object with the final configuration - same values, or the same rejection of a bound that is no multiple"""
+    vars_ = common.VARS[:rng.randint(1, 2)]
+    for _ in range(100):
+        ast = sg.gen_formula(rng, sg.GenCfg(vars=vars_, ops=set(sg.ALL_OPS) - {'since_b', 'until_b', 'unless_b'}, max_depth=rng.randint(1, 3),
+                                            max_bound=rng.choice([2, 4])))
+        if any(x[0] in sg.TUN for x in sg.walk(ast)):
+            break
+    # bounds are written as plain numbers or with an explicit unit, independently of both configurations
+    first, final = rng.sample(CONFIGS, 2)
+    tick = min(Fraction(c.get('sampling', [1, 's'])[0]) * units.U[c.get('sampling', [1, 's'])[1]] for c in (first, final))
+    coarse = max(units.U[c.get('unit') or 's'] for c in (first, final))
+
+    def bp(lo, hi, sp):
+        for _ in range(20):
+            u = rng.choice(['', '', 'ms', 's'])
+            k = rng.choice([1, 1, 10, 20, 500, 1000])
+            if hi * k * (units.U[u] if u else coarse) <= 4000 * tick:      # windows stay below a few thousand samples
+                break
+        else:
+            u, k = 'ms', 1
+        return '[%d%s:%d%s]' % (lo * k, u, hi * k, u if rng.random() < 0.8 else '')
+    text = 'out = ' + sg.to_text(ast, sg.Spelling(rng), bp) + ';'
+    n = rng.randint(2, 9)
+    return {'kind': 'reconfig', 'vars': vars_, 'text': text, 'first': first, 'final': final, 'n': n, 'data': world.gen_trace(rng, vars_, n),
+            'use_first': rng.random() < 0.8}
+
+
+def _stamps_for(cfg, n):
+    p, u, _ = cfg.get('sampling') or [1, 's', 0.1]
+    step = Fraction(p) * units.U[u] / units.U[cfg.get('unit') or 's']
+    return [float(i * step) if (i * step).denominator != 1 else int(i * step) for i in range(n)]
+
+
+def run_reconfig(sc):
+    r = Result()
+    r.probes['reconfigured_object'] += 1
+    r.faults['reconfigured_after_use' if sc.get('use_first') else 'reconfigured_before_use'] += 1
+    n, data = sc['n'], sc['data']
+    base = {'cls': 'dt_off', 'vars': common.var_decls(sc['vars']), 'spec': sc['text']}
+    base.update(sc['final'])
+    times = _stamps_for(sc['final'], n)
+    prior = dict(sc['first'])
+    if sc.get('use_first'):
+        prior['data'] = data
+        prior['times'] = _stamps_for(sc['first'], n)
+
+    def outcome(desc):
+        try:
+            return ['values', [p[1] for p in M.dt_evaluate(M.build(desc), times, data)]]
+        except M.ApiCrash as e:
+            return ['rtamt-exception' if e.is_rtamt else 'crash:' + e.exc_type, e.describe().get('msg')]
+    fresh = outcome(base)
+    used = outcome(dict(base, prior=prior))
+    r.api_calls += 8
+    r.evals += 1
+    r.sim_time += n
+    r.obs.append(fresh)
+    same = fresh[0] == used[0] and (fresh[0] != 'values' or (len(fresh[1]) == len(used[1]) and all(eqn(a, b) for a, b in zip(fresh[1], used[1]))))
+    if fresh[0].startswith('crash'):
+        r.violate('fleet-member-raised', spec=sc['text'], config=sc['final'], outcome=fresh)
+    elif not same:
+        r.violate('reconfigured-object-equals-fresh', spec=sc['text'], first=sc['first'], final=sc['final'], used_before=bool(sc.get('use_first')),
+                  data=data, fresh=fresh, reconfigured=used)
+    if fresh[0] == 'values' and common.count_nontrivial(fresh[1]):
+        r.nontrivial.add('reconfig|%s|%s' % (sorted(sc['first'].items()), sorted(sc['final'].items())))
+    if fresh[0] == 'rtamt-exception':
+        r.probes['reconfigured_to_non_multiple'] += 1
+    return r
+
+
 def gen(rng, tier):
     r = rng.random()
+    if r < 0.04:
+        return gen_reconfig(rng)
     if r < 0.08:
         return gen_same_numerals(rng)
     if r < 0.15:
@@ -217,6 +297,8 @@ def eqn(a, b):
 def run(sc):
     if sc['kind'] == 'nonmultiple':
         return run_nonmultiple(sc)
+    if sc['kind'] == 'reconfig':
+        return run_reconfig(sc)
     if sc['kind'] == 'dense':
         return run_dense(sc)
     r = Result()
@@ -396,6 +478,17 @@ def run_nonmultiple(sc):
 
 
 def shrinks(sc):
+    if sc['kind'] == 'reconfig':
+        if sc.get('use_first'):
+            c = copy.deepcopy(sc)
+            c['use_first'] = False
+            yield c
+        if sc['n'] > 1:
+            c = copy.deepcopy(sc)
+            c['n'] = sc['n'] - 1
+            c['data'] = dict((v, sc['data'][v][:-1]) for v in sc['data'])
+            yield c
+        return
     if sc['kind'] == 'fleet':
         if len(sc['fleet']) > 2:
             for j in range(1, len(sc['fleet'])):
